@@ -64,12 +64,10 @@ def compare(ctx, impl_lines, label):
                           "c16 replay %s\nobserved %s\n" % (inp, got))
             continue
         # level A: the manual
+        if flags:
+            ctx.count("nan-involved:" + flags.split(",")[0])
         if got not in alts:
-            key = inp
-            if flags and got != "E" and not got.endswith(" -"):
-                # a NaN is involved and golua iterates although `v <= NaN` is false
-                key = "%s:%s %s" % (flags.split(",")[0], kind, inp)
-            ctx.violation(key, "golua: %s; the manual prescribes: %s" % (got, " or ".join(alts)),
+            ctx.violation(inp, "golua: %s; the manual prescribes: %s" % (got, " or ".join(alts)),
                           "c16 replay %s\nobserved %s\nexpected %s\n" % (inp, got, " | ".join(alts)))
         # level B: the model the theorems are about
         if got != model:
